@@ -157,3 +157,27 @@ package procbuilder
 //@   loop 1: invariant f0: sc.ShowIoPre ==> old(sc.ShowIoPre) || (exists k int :: k < $i && activeProcCfg(s, k, "show_proc_io_pre"))
 //@   loop 1: invariant g1: forall k int :: k < $i && activeProcCfg(s, k, "show_proc_io_post") ==> sc.ShowIoPost
 //@   loop 1: invariant g0: sc.ShowIoPost ==> old(sc.ShowIoPost) || (exists k int :: k < $i && activeProcCfg(s, k, "show_proc_io_post"))
+
+//@ props C09
+// Initialising a processor VM touches that VM only and keeps its machine and delay models.
+//@ func (vm *VM) Init() error
+//@   requires vm != nil
+//@   ensures kept: vm.Mach == old(vm.Mach) && vm.SimDelayArray == old(vm.SimDelayArray)
+//@   assigns vm.*
+//@   frameonly
+//@   loop 1: modifies vm.Registers[*]
+//@   loop 2: modifies vm.Memory[*]
+//@   loop 3: modifies vm.Inputs[*]
+//@   loop 4: modifies vm.Outputs[*]
+//@   loop 5: modifies vm.Registers[*]
+//@   loop 6: modifies vm.Memory[*]
+//@   loop 7: modifies vm.Inputs[*]
+//@   loop 8: modifies vm.Outputs[*]
+//@   loop 9: modifies vm.Registers[*]
+//@   loop 10: modifies vm.Memory[*]
+//@   loop 11: modifies vm.Inputs[*]
+//@   loop 12: modifies vm.Outputs[*]
+//@   loop 13: modifies vm.Registers[*]
+//@   loop 14: modifies vm.Memory[*]
+//@   loop 15: modifies vm.Inputs[*]
+//@   loop 16: modifies vm.Outputs[*]
